@@ -33,8 +33,9 @@ if [ -d /var/tmp/before/harness ]; then
   # the harness as it was before this round's strengthening (a frozen worktree of /verif), same patched /repo
   for id in $ids; do
     case $id in C17|C19) before="$before $id:not-measured"; continue;; esac
-    (cd /var/tmp/before/harness && CARGO_TARGET_DIR=/var/tmp/before-target cargo build --release --offline >/dev/null 2>&1; CARGO_TARGET_DIR=/var/tmp/before-target cargo build --profile checked --offline >/dev/null 2>&1)
-    bout=$(cd /var/tmp/before/harness && VERIF_LANE=/var/tmp/before-lane /var/tmp/before-target/release/blsful-mc $id quick 2>/dev/null); bcode=$?
+    # (release pass only: BEFORE_BOTH=1 also builds and runs the checked profile)
+    (cd /var/tmp/before/harness && CARGO_TARGET_DIR=/var/tmp/before-target cargo build --release --offline >/dev/null 2>&1; [ -n "$BEFORE_BOTH" ] && CARGO_TARGET_DIR=/var/tmp/before-target cargo build --profile checked --offline >/dev/null 2>&1)
+    bout=$(cd /var/tmp/before/harness && if [ -n "$BEFORE_BOTH" ]; then VERIF_LANE=/var/tmp/before-lane /var/tmp/before-target/release/blsful-mc $id quick 2>/dev/null; else VERIF_SINGLE_PROFILE=1 VERIF_LANE=/var/tmp/before-lane /var/tmp/before-target/release/blsful-mc $id quick 2>/dev/null; fi); bcode=$?
     before="$before $id:exit$bcode"
   done
 fi
